@@ -1621,6 +1621,20 @@ def _num_leading_zeros(I, fr, t, path, rargs, args):
     return AInt(32, False, 0, a.bits if _ai(a) else 128)
 
 
+def _num_leading_ones(I, fr, t, path, rargs, args):
+    a = args[0]
+    if _ai(a):
+        return _num_leading_zeros(I, fr, t, path, rargs, [aval.bitnot(a)])
+    return AInt(32, False, 0, 128)
+
+
+def _num_trailing_ones(I, fr, t, path, rargs, args):
+    a = args[0]
+    if _ai(a):
+        return _num_trailing_zeros(I, fr, t, path, rargs, [aval.bitnot(a)])
+    return AInt(32, False, 0, 128)
+
+
 NUM_METHODS = {
     'wrapping_neg': _num_wrapping_neg,
     'wrapping_add': _num_wrapping('add'),
@@ -1637,6 +1651,8 @@ NUM_METHODS = {
     'checked_shl': _num_checked_shl,
     'leading_zeros': _num_leading_zeros,
     'trailing_zeros': _num_trailing_zeros,
+    'leading_ones': _num_leading_ones,
+    'trailing_ones': _num_trailing_ones,
 }
 
 
